@@ -538,7 +538,7 @@ struct aligned_array : public array_base<BaseType> {
             BaseType* base = this->data();
             for (int d = this->ndims() - 1; d >= 0; --d) {
                 int c = (p % this->dim(d));
-                p /= this->dim(d-1);
+                p /= this->dim(d);
                 base += c * this->stride(d);
             }
             return *base;
